@@ -275,8 +275,11 @@ class ModelCompiler:
                 if any(isinstance(el, list) for el in defn.cells):
                     for column in defn.cells:
                         for row_address in column:
-                            self.model.cells[row_address].defined_names.append(
-                                name)
+                            # A range may span cells that hold nothing (or
+                            # lie on an ignored sheet): no cell, no back-link.
+                            if row_address in self.model.cells:
+                                self.model.cells[
+                                    row_address].defined_names.append(name)
                 else:
                     # programmer error
                     message = "This isn't a dim2 array. {}".format(name)
